@@ -27,5 +27,6 @@ unsigned long vpy_ival(PyObject *o) {
 }
 double vpy_dval(PyObject *o) { return PyFloat_AsDouble(o); }
 const char *vpy_sptr(PyObject *o) { return PyUnicode_AsUTF8(o); }
+long vpy_slen(PyObject *o) { Py_ssize_t n = 0; PyUnicode_AsUTF8AndSize(o, &n); return n; }
 unsigned vpy_get_error() { return PyErr_Occurred() != 0; }
 }
